@@ -17,7 +17,7 @@ func init() {
 			"damage never removes directories and never touches the index file in this profile (a damaged index makes every operation fail, which is C13's territory)",
 			"recovery files are deleted or restored whole ('a recovery file arrives'); damaged recovery files belong to C13",
 		},
-		ProbesWant: []string{"repair-after-repair", "damage-after-repair", "repair-failed-then-recovery-restored-then-repaired", "second-repair-checked", "failed-repair-checked", "par1-walk", "par2-walk"},
+		ProbesWant: []string{"repair-after-repair", "damage-after-repair", "repair-failed-then-recovery-restored-then-repaired", "second-repair-checked", "failed-repair-checked", "par1-walk", "par2-walk", "repair-crashed-mid-write", "stale-recovery-arrives"},
 	})
 }
 
@@ -103,7 +103,7 @@ func histories(r *Run) {
 	}
 	for s := 0; s < steps; s++ {
 		t.Begin("step")
-		op := t.Pick([]int{5, 2, 2, 2, 2, 4, 2, 1}, "op")
+		op := t.Pick([]int{5, 2, 2, 2, 2, 4, 2, 1, 1}, "op")
 		name := ""
 		switch op {
 		case 0:
@@ -148,6 +148,46 @@ func histories(r *Run) {
 				w.hostileRecoveryKind(r, "stale-same-setid")
 			}
 			r.Probe("stale-recovery-arrives")
+		case 8:
+			// the process is killed in the middle of a Repair: the write in
+			// progress is torn, nothing after it happens, no result is seen
+			name = "repair-crashes"
+			before := w.Disk.Snapshot()
+			plan := []simdisk.Fault{{NthWrite: 1 + t.Draw(3, "crash-write"), Kind: simdisk.Crash, KeepPermille: t.Draw(1001, "keep")}}
+			var rep *OpResult
+			if w.Par1 {
+				rep = r.Repair1(w, w.Index, false, plan)
+			} else {
+				rep = r.Repair2(w, w.Index, 1+t.Draw(4, "g"), false, plan, SchedSpec{})
+			}
+			r.noPanic(rep)
+			if rep.Crashed {
+				r.Probe("repair-crashed-mid-write")
+				r.Count("fault:crash")
+			}
+			// whatever happened, every protected file holds its previous
+			// content, its original, or a prefix of its original (the torn
+			// write); nothing else changed
+			for i := range w.Files {
+				p := w.Path(i)
+				cur, ok := w.Disk.Get(p)
+				prev, pok := before[p]
+				same := ok == pok && string(cur) == string(prev)
+				orig := w.Files[i].Data
+				prefix := ok && len(cur) <= len(orig) && string(cur) == string(orig[:len(cur)])
+				if !same && !prefix {
+					r.Violate("failed-repair-worsened", "after a Repair killed mid-write %q holds neither its previous content nor a prefix of its original", w.Files[i].Name)
+				}
+			}
+			for p, prev := range before {
+				if w.isProtectedPath(p) {
+					continue
+				}
+				if cur, ok := w.Disk.Get(p); !ok || string(cur) != string(prev) {
+					r.Violate("failed-repair-worsened", "a Repair killed mid-write changed %s", p)
+				}
+			}
+			lastRepairOK = false
 		case 4:
 			name = "verify"
 			before := w.Disk.Snapshot()
